@@ -45,6 +45,21 @@ type mapSubject struct{ m *coapSync.Map[int, int] }
 
 func newMapSubject() *mapSubject { return &mapSubject{coapSync.NewMap[int, int]()} }
 
+// unlockedCallbacks: operation name -> number of callbacks that found the map's lock free while they ran. A callback of a
+// ...WithFunc operation is part of that operation's critical section ("callbacks run against the value actually in the
+// map"): while it runs nobody can remove or replace the entry it was given. The probe is a TryLock on the map's own lock.
+var unlockedCallbacks sync.Map
+
+func (s *mapSubject) probe(op string) {
+	if !s.m.VerifLocked() {
+		v, _ := unlockedCallbacks.LoadOrStore(op, new(atomic.Int64))
+		v.(*atomic.Int64).Add(1)
+	}
+	callbackProbes.Add(1)
+}
+
+var callbackProbes atomic.Int64
+
 func snapOf(m map[int]int) state {
 	var s state
 	for k, v := range m {
@@ -75,25 +90,27 @@ func (s *mapSubject) exec(in input, clock *atomic.Int64, client int, yield func(
 	case opLoadAndDelete:
 		out.Val, out.Ok = s.m.LoadAndDelete(in.Key)
 	case opLoadOrStoreWithFunc:
-		out.Val, out.Ok = s.m.LoadOrStoreWithFunc(in.Key, func(v int) int { out.CbRan, out.CbVal = true, v; return v }, func() int { return in.Arg })
+		out.Val, out.Ok = s.m.LoadOrStoreWithFunc(in.Key, func(v int) int { s.probe("LoadOrStoreWithFunc"); out.CbRan, out.CbVal = true, v; return v }, func() int { s.probe("LoadOrStoreWithFunc/create"); return in.Arg })
 	case opReplaceWithFuncStore:
 		out.Val, out.Ok = s.m.ReplaceWithFunc(in.Key, func(old int, loaded bool) (int, bool) {
+			s.probe("ReplaceWithFunc")
 			out.CbRan, out.CbVal, out.CbOk = true, old, loaded
 			return in.Arg, false
 		})
 	case opReplaceWithFuncDelete:
 		out.Val, out.Ok = s.m.ReplaceWithFunc(in.Key, func(old int, loaded bool) (int, bool) {
+			s.probe("ReplaceWithFunc")
 			out.CbRan, out.CbVal, out.CbOk = true, old, loaded
 			return 0, true
 		})
 	case opLoadAndDeleteWithFunc:
-		out.Val, out.Ok = s.m.LoadAndDeleteWithFunc(in.Key, func(v int) int { out.CbRan, out.CbVal = true, v; return v })
+		out.Val, out.Ok = s.m.LoadAndDeleteWithFunc(in.Key, func(v int) int { s.probe("LoadAndDeleteWithFunc"); out.CbRan, out.CbVal = true, v; return v })
 	case opLoadWithFunc:
-		out.Val, out.Ok = s.m.LoadWithFunc(in.Key, func(v int) int { out.CbRan, out.CbVal = true, v; return v })
+		out.Val, out.Ok = s.m.LoadWithFunc(in.Key, func(v int) int { s.probe("LoadWithFunc"); out.CbRan, out.CbVal = true, v; return v })
 	case opDeleteWithFunc:
-		s.m.DeleteWithFunc(in.Key, func(v int) { out.CbRan, out.CbVal = true, v })
+		s.m.DeleteWithFunc(in.Key, func(v int) { s.probe("DeleteWithFunc"); out.CbRan, out.CbVal = true, v })
 	case opStoreWithFunc:
-		s.m.StoreWithFunc(in.Key, func() int { return in.Arg })
+		s.m.StoreWithFunc(in.Key, func() int { s.probe("StoreWithFunc"); return in.Arg })
 	case opCopyData:
 		out.Snap = snapOf(s.m.CopyData())
 	case opLoadAndDeleteAll:
@@ -101,7 +118,7 @@ func (s *mapSubject) exec(in input, clock *atomic.Int64, client int, yield func(
 	case opLength:
 		out.N = s.m.Length()
 	case opRange2:
-		s.m.Range2(func(k, v int) bool { out.Snap[k] = v; return true })
+		s.m.Range2(func(k, v int) bool { s.probe("Range2"); out.Snap[k] = v; return true })
 	case opRangeCall:
 		type kv struct{ k, v int }
 		var seen []kv
@@ -472,6 +489,11 @@ func TestRun(t *testing.T) {
 	}
 	wg.Wait()
 	rec.Count("phase_ms_races", time.Since(t0).Milliseconds())
+	unlockedCallbacks.Range(func(k, v any) bool {
+		rec.Violation("C14/map/callback-runs-outside-the-critical-section/"+k.(string), fmt.Sprintf("%d callback invocation(s) of %s found the map's lock free while they ran: a concurrent Delete/Replace/sweep of that key can complete between the look-up and the callback, which then works on a value that is no longer in the map", v.(*atomic.Int64).Load(), k), nil)
+		return true
+	})
+	rec.Count("callback_lock_probes", callbackProbes.Load())
 	rec.Assume("sequential specification: a map from key to value id; Cache.Load hides expired entries, Cache.LoadOrStore replaces expired entries; expiry classes are 'one hour ago' and 'never', so no clock enters a verdict")
 	rec.Assume("Range and CheckExpirations are not atomic by contract: each callback invocation / onExpire is a sub-operation that must linearize within the enclosing call")
 }
